@@ -56,11 +56,17 @@ TRUSTED = [
     'in the model and under the shim alike',
     'family sched: the servers are fake-transport endpoints whose heartbeat handler is the real CourierServer._heartbeat '
     'function applied to a stand-in object; max_parallelism = 1',
+    'family schedc (run / call_and_wait step by step, harness/lib_owner.py): additional yield points = every time.time() of '
+    'courier_worker.py, every time.sleep (pure yield: the virtual clock moves only by the environment tick), futures.wait([state]) '
+    'and the done() polls of courier_worker.wait as BLOCKING yields (the stutter-free equivalent of the two waits); time.time() of '
+    'courier_utils.py is fused into the step; max_parallelism in {1, 2}; the base script of pieces is a prophecy discovered by the '
+    'driver and re-checked on the pure xstep? in a second pass',
 ]
 ASSUMPTIONS = [
     'times are integral ticks of a virtual clock; thresholds in {100, 180, 400}',
     'every pool-level operation is given worker lists inside the pool; blocking acquire_by (no caller) not modelled',
-    'released-on-exit is stated for a pool driven by one thread at a time (other pools/threads arbitrary)',
+    'released-on-exit is stated for a pool with one acquiring thread (other threads may release / call / poll for the same '
+    'pool; other pools arbitrary)',
 ]
 RULE = ('live: small-exhaustive event sequences (length<=3 quick / <=4 thorough) over a 15-letter alphabet on 2 addresses '
         'and 2 clients, then random sequences of length<=25, clock start 50 or 1000, plus (server life-cycle) every sequence of '
@@ -76,6 +82,10 @@ RULE = ('live: small-exhaustive event sequences (length<=3 quick / <=4 thorough)
         'the LTS yields, per program point, a shortest schedule ending there, replayed on the real code; '
         'schedrun (oracle only): one pool thread running WorkerPool.run / call_and_wait (tasks that succeed or raise) against the '
         'pool and environment threads of a sched case, inline transport, spin loops advance the virtual clock by 30-100 s; '
+        'schedc: thread 0 runs 1-2 of run / call_and_wait (task ok / raises; optionally an _acquire_all before and a next_idle_worker after), '
+        '0-2 other pool threads (other pools: sched operations; same pool: release_all / call / idle_workers), 1-3 environment threads '
+        '(die / revive / send / deliver late or failed / tick up to 200 s, so that the 180 s deadlines and the heartbeat threshold are crossed), '
+        '1-3 workers with max_parallelism 1-2, schedule as in sched, cut after 1200 steps (spin loops); '
         'distinct = distinct canonical case JSON')
 
 THRS = [100, 180, 400]
